@@ -1923,10 +1923,6 @@ func (p *Parser) parseConditionVarOperator(expression *ast.OperatorExpression) e
 			} else if p.curToken.Type == token.RPAREN {
 				if numOpenParens == 0 {
 					p.nextToken()
-					if len(parts) > 1 {
-						parts = append(parts, ")")
-						parts = append([]string{"("}, parts...)
-					}
 					break
 				}
 				numOpenParens -= 1
@@ -1937,7 +1933,13 @@ func (p *Parser) parseConditionVarOperator(expression *ast.OperatorExpression) e
 				return NewParseError(valueToken, "missing ')' when evaluating 'value'")
 			}
 		}
-		expression.ComparisonValue = strings.Join(parts, " ")
+		// Wrap anything that isn't a single token in parentheses. A constant can
+		// expand to several tokens, so look at the expanded value.
+		comparisonValue := strings.Join(parts, " ")
+		if strings.Contains(comparisonValue, " ") {
+			comparisonValue = "( " + comparisonValue + " )"
+		}
+		expression.ComparisonValue = comparisonValue
 	} else {
 		parts := []string{}
 		startToken := p.curToken
